@@ -74,6 +74,7 @@ fn dispatch(cmd: &str, opts: &Opts) -> i32 {
     }
     match cmd {
         "C01" => props::c01::run(opts),
+        "C03" => props::c03::run(opts),
         "C12" => props::c12::run(opts),
         "C14" => props::c14::run(opts),
         _ => {
